@@ -120,7 +120,8 @@ Take(c, S) == (net (-) SetToBag({c})) (+) SetToBag(S)
 \*       prom  the earliest instant by which a Read-FDT reply promised the entry to be purged (remaining seconds as
 \*             reported, counted in whole-second boundaries); void on re-registration / deletion
 H0 == [reg |-> NONE, ack |-> NONE, live |-> NONE, kill |-> "none", killAt |-> NONE, active |-> FALSE, prom |-> NONE,
-       infl |-> 0]     \* registrations (TTL > 0) of the device still under way when it unregistered: those may overtake
+       infl |-> -1]    \* registrations (TTL > 0) of the device still under way when it unregistered: those may overtake
+                       \* (-1: it has not unregistered since it last registered)
 RECURSIVE Promise(_, _, _, _, _)
 Promise(hh, b, tab, i, t) ==
     IF i > Len(tab) THEN hh
@@ -170,13 +171,13 @@ HUpd(hh, a, t) ==
     CASE a.n = "Rx" ->
             LET c == a.c IN
             IF c.fn = "RG" /\ IsB(c.to) /\ IsF(c.src) /\ BBMDof[c.src] = c.to /\ c.arg > 0
-                 /\ hh[c.src].kill = "unreg" /\ ~hh[c.src].active /\ hh[c.src].infl = 0
+                 /\ hh[c.src].kill = "unreg" /\ hh[c.src].infl = 0
               \* a registration the device sent when or after it unregistered (none was under way then): the obligation
               \* to stop within the grace period stands, whatever the BBMD makes of the frame
               THEN hh
             ELSE IF c.fn = "RG" /\ IsB(c.to) /\ IsF(c.src) /\ BBMDof[c.src] = c.to /\ c.arg > 0
               THEN [hh EXCEPT ![c.src].reg = t, ![c.src].kill = "none", ![c.src].killAt = NONE, ![c.src].prom = NONE,
-                              ![c.src].infl = IF @ > 0 /\ ~hh[c.src].active THEN @ - 1 ELSE @]
+                              ![c.src].infl = IF @ > 0 THEN @ - 1 ELSE @]
             ELSE IF c.fn = "RG" /\ IsB(c.to) /\ IsF(c.src) /\ BBMDof[c.src] = c.to /\ c.arg = 0
               \* the BBMD processes an unregistration (possibly overtaken by a renewal still under way)
               THEN [hh EXCEPT ![c.src].kill = "unreg", ![c.src].killAt = IF hh[c.src].kill = "unreg" THEN @ ELSE t,
@@ -192,7 +193,7 @@ HUpd(hh, a, t) ==
       [] a.n = "FDUnregister" -> [hh EXCEPT ![a.who].kill = "unreg", ![a.who].killAt = t, ![a.who].ack = NONE,
                                             ![a.who].live = NONE, ![a.who].active = FALSE,
                                             ![a.who].infl = Sum(net, {c \in BagToSet(net) : c.fn = "RG" /\ c.src = a.who /\ c.arg > 0})]
-      [] a.n = "FDRegister"   -> [hh EXCEPT ![a.who].active = TRUE, ![a.who].live = NONE, ![a.who].infl = 0]
+      [] a.n = "FDRegister"   -> [hh EXCEPT ![a.who].active = TRUE, ![a.who].live = NONE, ![a.who].infl = -1]    \* registers again: anything it sends from now on counts
       [] a.n = "FDStopRenew"  -> [hh EXCEPT ![a.who].active = FALSE, ![a.who].live = NONE]
       [] OTHER -> hh
 
